@@ -227,6 +227,22 @@ class C16(Property):
             return out
         res = np.ma.getdata(mag)[0].reshape(nt)
         rmask = (np.ma.getmaskarray(mag)[0] if np.ma.isMaskedArray(mag) else np.zeros(tshape, bool)).reshape(nt)
+        if spec["seed"] % 3 == 1:
+            # history: a second publication through the same link; what was delivered before must not change underneath its holder
+            held = mag
+            held_copy = np.ma.getdata(mag).copy()
+            vals2 = vals + 1000.0
+            deliver.out.push_data(np.ma.array(vals2, mask=ms) if ms is not None else vals2, slots.t(3600))
+            got_b = inp.pull_data(slots.t(3600))
+            out.count("second_publication_through_the_same_link")
+            if not np.array_equal(np.ma.getdata(held)[~np.ma.getmaskarray(held)], held_copy[~np.ma.getmaskarray(held)]):
+                out.viol("delivered_data_changed_later", "the array delivered for the first publication changed when the second one was pulled", spec=spec)
+                return out
+            rb = np.ma.getdata(got_b.magnitude)[0].reshape(nt)
+            kb = (np.ma.getmaskarray(got_b.magnitude)[0] if np.ma.isMaskedArray(got_b.magnitude) else np.zeros(tshape, bool)).reshape(nt)
+            if not np.array_equal(kb, rmask) or not np.allclose(rb[~kb], res[~rmask] + 1000.0, rtol=1e-9, atol=1e-6):
+                out.viol("second_publication_differs", f"{spec['method']}: the same field shifted by a constant is not delivered shifted by that constant", spec=spec)
+                return out
         if spec["seed"] % 3 == 0:
             # history: a second, fresh adapter between the same two grid objects must deliver the same field
             got2, _ = deliver(vals.copy())
@@ -351,7 +367,7 @@ class C16(Property):
     def coverage_gaps(self, counters, tier):
         need = ["method_nearest", "method_linear", "target_elements_checked", "identity_between_layouts_checked", "inside_hull_checked",
                 "outside_hull_masked_checked", "outside_hull_filled_checked", "poison_runs", "grids_with_changed_data_location", "undeclared_masked_data_refused", "dim_1", "dim_2", "dim_3",
-                "sources_with_more_than_256_locations", "target_mask_given_to_the_adapter", "second_adapter_on_the_same_grid_objects", "src_struct_uniform", "src_struct_rect", "src_struct_esri", "src_upoints", "src_ucells", "src_ucells_mixed", "tgt_struct_uniform", "tgt_upoints", "tgt_ucells"]
+                "sources_with_more_than_256_locations", "target_mask_given_to_the_adapter", "second_adapter_on_the_same_grid_objects", "second_publication_through_the_same_link", "src_struct_uniform", "src_struct_rect", "src_struct_esri", "src_upoints", "src_ucells", "src_ucells_mixed", "tgt_struct_uniform", "tgt_upoints", "tgt_ucells"]
         return [f"{k} never observed" for k in need if not counters.get(k)]
 
 
